@@ -25,7 +25,7 @@ ASSUMPTIONS = [
     "monotonicity law evaluated on trees without negated rows (a negated row is meant to be dropped under cant_delete)",
     "juniper 'inactive:' rows are not generated",
 ]
-FLOORS = {"quick": {"filter_acl_texts_behind_a_common_margin": 300, "filters_compared": 3000, "strict_raises_agreed": 300, "strict_passes_agreed": 100, "monotone_checked": 1000, "idempotent_checked": 3000, "explicit_negated_rule_cases": 400, "production_merges_checked": 1500, "diff_texts_filtered": 600, "ignore_rule_filters": 300, "slash_regex_filters": 300, "rows_under_an_inherited_global_rule_two_or_more_levels_down": 300, "acl_lines_with_tab_before_params": 2000, "acl_comment_lines_inside_blocks": 500, "inactive_row_filters": 600, "filters_of_partly_annotated_trees": 1500, "acl_rules_with_params_on_a_continuation_line": 300, "moved_rows_in_filtered_diff_texts": 500},
+FLOORS = {"quick": {"run_filter_acls_built": 300, "generators_with_an_empty_acl_run_strictly": 300, "filter_acl_texts_behind_a_common_margin": 300, "filters_compared": 3000, "strict_raises_agreed": 300, "strict_passes_agreed": 100, "monotone_checked": 1000, "idempotent_checked": 3000, "explicit_negated_rule_cases": 400, "production_merges_checked": 1500, "diff_texts_filtered": 600, "ignore_rule_filters": 300, "slash_regex_filters": 300, "rows_under_an_inherited_global_rule_two_or_more_levels_down": 300, "acl_lines_with_tab_before_params": 2000, "acl_comment_lines_inside_blocks": 500, "inactive_row_filters": 600, "filters_of_partly_annotated_trees": 1500, "acl_rules_with_params_on_a_continuation_line": 300, "moved_rows_in_filtered_diff_texts": 500},
           "thorough": {"filters_compared": 100000, "strict_raises_agreed": 10000, "strict_passes_agreed": 3000, "monotone_checked": 30000, "idempotent_checked": 100000, "explicit_negated_rule_cases": 12000, "production_merges_checked": 50000, "diff_texts_filtered": 20000, "ignore_rule_filters": 10000, "slash_regex_filters": 5000}}
 VENDORS = ["huawei", "cisco", "pc", "routeros", "juniper", "arista"]
 KNOWN_WINNER = "C06/children-rules-lost-when-global-or-negated-match-outranks-local"
@@ -579,7 +579,77 @@ def check_inactive_case(seed, acc):
             return
 
 
+def check_front_ends(seed, acc):
+    """two places where the production code hands texts to the ACL functions: (a) the filter ACL of a run is the user's text and the texts the
+    site's filterer makes for --filter-ifaces/-peers/-policies, one after the other: it passes what any of them passes; (b) a generator's strict
+    pass happens whatever its ACL text is - with an empty (or missing) text the first line it yields is named in the error"""
+    import types as _t
+    from annet import gen
+    from annet.annlib.patching import apply_acl
+    from annet.annlib.rbparser.acl import compile_acl_text
+    from annet.generators import GeneratorError, GeneratorPartialRunArgs, _run_partial_generator
+    from annet.vendors import registry_connector
+    from vf import harness_gen as H
+    rng = random.Random(seed)
+    vname = rng.choice(["huawei", "cisco", "arista"])
+    v = registry_connector.get()[vname]
+    dev = H.FakeDevice(v.hardware)
+    parts = {"user": "snmp ~\nntp *", "ifaces": "interface Eth1\n    ~", "peers": "bgp *\n    peer k1 ~", "policies": "route-policy P1 ~"}
+    tree = [["snmp a b", []], ["ntp k1", []], ["interface Eth1", [["mtu 9000", []]]], ["interface Eth2", [["mtu 1500", []]]], ["bgp 1", [["peer k1 x", []], ["peer k2 x", []]]],
+            ["route-policy P1 permit", []], ["sysname s", []]]
+    use = [k for k in ("ifaces", "peers", "policies") if rng.random() < 0.6] or ["ifaces"]
+    user = rng.choice([None, parts["user"], parts["user"] + "\n", "\n" + parts["user"]])
+
+    class Filt:
+        def for_ifaces(self, device, x):
+            return parts["ifaces"] + rng.choice(["", "\n"])
+
+        def for_peers(self, device, x):
+            return parts["peers"] + rng.choice(["", "\n"])
+
+        def for_policies(self, device, x):
+            return parts["policies"] + rng.choice(["", "\n"])
+    args = _t.SimpleNamespace(filter_acl=("-" if user else None), filter_ifaces=(["Eth1"] if "ifaces" in use else None), filter_peers=(["k1"] if "peers" in use else None),
+                              filter_policies=(["P1"] if "policies" in use else None))
+    w = {"front_ends": True, "seed": seed, "vendor": vname, "user_text": user, "filter_options": use}
+    try:
+        rules = gen.build_filter_acl(Filt(), dev, {"filter_acl": user}, args, None)
+        got = plain(apply_acl(unplain(tree), rules, fatal_acl=False))
+    except Exception as e:
+        acc.violation("C06/filter-text-of-a-run/exception-%s" % type(e).__name__, "building or applying the filter ACL of a run raised", dict(w, error=repr(e)[:300]))
+        return
+    acc.count("run_filter_acls_built")
+    acc.case(["run-filter", vname, user, use], nontrivial=bool(user))
+    for k in (["user"] if user else []) + use:
+        alone = plain(apply_acl(unplain(tree), compile_acl_text(parts[k], vname, allow_ignore=True), fatal_acl=False))
+        lost = [p_ for p_ in paths(unplain(alone)) if p_ not in list(paths(unplain(got)))]
+        if lost:
+            acc.violation("C06/merged-acl-passes-less", "the filter by two ACLs merged drops a line that one of them passes alone",
+                          dict(w, part=k, lost=[list(x) for x in lost][:5], passed=got))
+            return
+    # (b)
+    rows = [rng.choice(["sysname sw1", "ntp k1", "snmp a"]), "vlan 5"]
+
+    def run(self, device):
+        yield from rows
+    text = rng.choice(["", None, "   ", "\n", "# nothing yet\n"])
+    g = H.make_partial("GenEmptyAcl", vname, text, run)
+    acc.count("generators_with_an_empty_acl_run_strictly")
+    try:
+        res = _run_partial_generator(g, GeneratorPartialRunArgs(dev, use_acl=True))
+        acc.violation("C06/strict-mode/empty-acl-lets-lines-through", "a generator whose ACL text is empty is not stopped at its first line in strict mode",
+                      dict(w, acl_text=text, rows=rows, result=str(plain(res.config))[:200] if res is not None else None))
+    except GeneratorError as e:
+        named = str(e.__cause__ or e)
+        if not any(r_ in named for r_ in rows):
+            acc.violation("C06/strict-mode/error-names-wrong-row", "the strict-mode error does not name an uncovered row", dict(w, acl_text=text, rows=rows, error=named[:200]))
+    except Exception as e:
+        acc.violation("C06/strict-mode/exception-%s" % type(e).__name__, "the strict pass of a generator with an empty ACL raised something else than the ACL error", dict(w, acl_text=text, error=repr(e)[:200]))
+
+
 def run_shard(spec, acc):
+    if spec["mode"] == "replay" and spec["witness"].get("front_ends"):
+        return check_front_ends(spec["witness"]["seed"], acc)
     if spec["mode"] == "replay" and spec["witness"].get("inactive"):
         return check_inactive_case(spec["witness"]["seed"], acc)
     if spec["mode"] == "replay" and spec["witness"].get("slash_regex"):
@@ -594,6 +664,8 @@ def run_shard(spec, acc):
     rng = random.Random("C06/%s/%s" % (spec["seed"], k))
     for j in range(total // n):
         seed = rng.randrange(1 << 48)
+        if j % 8 == 0:
+            check_front_ends(seed ^ 0xF0E, acc)
         w = check_case(seed, acc)
         if j < 2 and w:
             acc.sample({k2: w[k2] for k2 in ("vendor", "acl_A", "acl_B", "tree")})
